@@ -332,9 +332,25 @@ func runDerived[E any](vals func(id, n int) []E, probe func(k int) E, c derivedC
 	return nil
 }
 
+// rec is a struct element held by value that contains a slice (ranked field by field)
+type rec struct {
+	Tags []int
+	N    int
+}
+
+func recsFor(id, n int) []rec {
+	out := make([]rec, n)
+	for i, s := range slicesFor(id, n) {
+		out[i] = rec{Tags: s, N: i % 3}
+	}
+	return out
+}
+
 func execDerived(c derivedCase, _ core.Source) (res core.Result) {
 	if c.Elem == "int" {
 		res.Violation = runDerived(intsFor, func(k int) int { return 1000 + k }, c)
+	} else if c.Elem == "rec" {
+		res.Violation = runDerived(recsFor, func(k int) rec { return rec{Tags: []int{1000, k}, N: k} }, c)
 	} else {
 		res.Violation = runDerived(slicesFor, func(k int) []int { return []int{1000, k} }, c)
 	}
@@ -430,7 +446,7 @@ func TestC19(t *testing.T) {
 	defer r.End()
 	core.Stress(r, core.Check[indepCase]{Name: "independent-instances", Gen: genIndep, Exec: execIndep, HangLimit: 300 * time.Second}, r.N(150, 2000))
 	core.Stress(r, core.Check[derivedCase]{Name: "derived-instances", Gen: func(s core.Source) derivedCase {
-		return derivedCase{Elem: core.Pick(s, []string{"int", "ints"}, "elem"), Seed: s.Choose(1000, "seed"), Rounds: 20 + s.Choose(60, "rounds")}
+		return derivedCase{Elem: core.Pick(s, []string{"int", "ints", "rec"}, "elem"), Seed: s.Choose(1000, "seed"), Rounds: 20 + s.Choose(60, "rounds")}
 	}, Exec: execDerived}, r.N(40, 600))
 	core.Stress(r, core.Check[registryCase]{Name: "class-registries", Gen: func(s core.Source) registryCase {
 		return registryCase{Type: s.Choose(8, "type"), Goroutines: 2 + s.Choose(15, "goroutines")}
